@@ -39,6 +39,21 @@ extern "C" [[noreturn]] void verif_abort(void);
 #define abort verif_abort
 void verif_abort_hook();
 extern "C" int verif_aborted;
+#if defined(VERIF_DEFINE_ABORT) && defined(VERIF_CBMC)
+// out-of-line libstdc++ throw helpers reached from header code (IR build has no libstdc++.so):
+// reaching one is reported (ids 90xx) and ends the path
+namespace std {
+void __throw_bad_function_call() { verif_assert(0, 9004); verif_end_path(); __builtin_unreachable(); }
+void __throw_length_error(const char*) { verif_assert(0, 9002); verif_end_path(); __builtin_unreachable(); }
+void __throw_bad_alloc() { verif_assert(0, 9001); verif_end_path(); __builtin_unreachable(); }
+void __throw_bad_array_new_length() { verif_assert(0, 9003); verif_end_path(); __builtin_unreachable(); }
+void __throw_out_of_range_fmt(const char*, ...) { verif_assert(0, 9006); verif_end_path(); __builtin_unreachable(); }
+void __throw_logic_error(const char*) { verif_assert(0, 9007); verif_end_path(); __builtin_unreachable(); }
+}
+void* operator new(std::size_t n) { void* p = std::malloc(n); __CPROVER_assume(p != nullptr); return p; }
+void operator delete(void*) noexcept {}
+void operator delete(void*, std::size_t) noexcept {}
+#endif
 #ifdef VERIF_DEFINE_ABORT
 extern "C" int verif_aborted = 0;
 extern "C" void verif_abort(void) {
